@@ -153,6 +153,11 @@ impl Hp {
         let s = h.add(&Big::one(), &h.expm1_series(&r));
         self.rnd(s.mul_pow2(k))
     }
+    /// 2^x = exp(x ln 2)
+    pub fn exp2(&self, x: &Big) -> Big {
+        let hh = Hp::new(self.w + 48);
+        self.exp(&hh.rnd(x.round_to(hh.w + 8).mul(&hh.ln2())))
+    }
     /// x + x^2/2! + ... (relative accuracy), |x| <= ~1
     fn expm1_series(&self, x: &Big) -> Big {
         if x.is_zero() {
